@@ -114,6 +114,8 @@ fn run_case(line: &str, fails: &mut Vec<(String, String)>, effective: &mut Optio
     match toks.as_slice() {
         ["S", ops] => sent::run_sent(ops, "", fails),
         ["S", ops, oracle] => sent::run_sent(ops, oracle, fails),
+        ["X", h] => sent::run_x(h, "", fails),
+        ["X", h, oracle] => sent::run_x(h, oracle, fails),
         ["H", cfg, preds, ops] => pred::run_h(cfg, preds, ops, "", fails),
         ["H", cfg, preds, ops, oracle] => pred::run_h(cfg, preds, ops, oracle, fails),
         [k, ..] if matches!(*k, "B" | "RS" | "RX" | "RF" | "WF") => bin::run(&toks, fails),
